@@ -351,22 +351,6 @@ def capOf : List String → Nat
   | ["multichan", c] => c.toNat?.getD 0
   | _ => 0
 
-/-- did every `call` note get its `ret` (i.e. the run completed)? -/
-def allReturned (lines : List String) : Bool :=
-  let rec go (pend : List Nat) : List String → Bool
-    | [] => pend.isEmpty
-    | l :: ls =>
-      match parseLine l with
-      | some r =>
-        if r.kind = "note" then
-          match r.args.head? with
-          | some "call" => go (r.fiber :: pend) ls
-          | some "ret" => go (pend.erase r.fiber) ls
-          | _ => go pend ls
-        else go pend ls
-      | none => go pend ls
-  go [] lines
-
 /-- model state after the whole log (`none` if the model rejects some event) -/
 def finalState (cap : Nat) (lines : List String) : Option St :=
   lines.foldl (fun acc l =>
@@ -399,7 +383,7 @@ def drive (lines : List String) : IO UInt32 := do
   let cap := capOf (initArgs lines)
   let body := lines.filter (fun l => !isInit l)
   let v := validateP (sys cap) ofRaw body
-  let complete := allReturned body
+  let complete := Chan.allReturned body
   -- FIFO: the ring is served in `high` order under one lock, so the order is total
   let cfg : QueueHist.Cfg :=
     { disc := .fifo, capacity := cap, drained := complete, checkEmpty := false }
